@@ -1,16 +1,18 @@
 #!/bin/bash
-# adopt_seed.sh Cxx : confirm /tmp/seed/Cxx_out in the scratch worktree, copy it to /verif/seeded/Cxx-a/, run the check
-P=$1; N=${2:-a}
+# adopt_seed.sh Cxx [a|b] [norun]: confirm the sub-agent's output (/tmp/seed/Cxx_out for round a, Cxx_outb for
+# round b) in the scratch worktree /tmp/seed/Cxx, copy it to /verif/seeded/Cxx-<round>/, run the check unless norun
+P=$1; N=${2:-a}; NORUN=$3
+SRC=/tmp/seed/${P}_out; [ "$N" != a ] && SRC=/tmp/seed/${P}_out$N
 cd /verif
-python3 tools/seeded.py confirm /tmp/seed/${P}_out /tmp/seed/$P 2>&1 | grep -v conda > /tmp/seed/${P}_confirm.json
-grep '"ok"' /tmp/seed/${P}_confirm.json
-if grep -q '"ok": true' /tmp/seed/${P}_confirm.json; then
-  mkdir -p seeded/$P-$N && cp /tmp/seed/${P}_out/patch.diff /tmp/seed/${P}_out/demo.py /tmp/seed/${P}_out/meta.json seeded/$P-$N/
+python3 tools/seeded.py confirm $SRC /tmp/seed/$P 2>&1 | grep -v conda > /tmp/seed/${P}_confirm$N.json
+grep '"ok"' /tmp/seed/${P}_confirm$N.json
+if grep -q '"ok": true' /tmp/seed/${P}_confirm$N.json; then
+  mkdir -p seeded/$P-$N && cp $SRC/patch.diff $SRC/demo.py $SRC/meta.json seeded/$P-$N/
   python3 - <<PY
 import json
 p='/verif/seeded/$P-$N/meta.json'
-m=json.load(open(p)); m['confirmed']=json.load(open('/tmp/seed/${P}_confirm.json')); m.setdefault('property','$P')
+m=json.load(open(p)); m['confirmed']=json.load(open('/tmp/seed/${P}_confirm$N.json')); m.setdefault('property','$P')
 json.dump(m,open(p,'w'),indent=1)
 PY
-  python3 tools/seeded.py run $P-$N 2>&1 | grep -v conda
+  [ -z "$NORUN" ] && python3 tools/seeded.py run $P-$N 2>&1 | grep -v conda
 fi
